@@ -1,41 +1,255 @@
-(* C10 — the QField<Rational> wrappers under EVERY aliasing pattern of their arguments.
-   Objects live in a store (index -> pair); a call names the objects passed for r, a, b, c (any of them may coincide).
-   The wrappers of qfield.h evaluate `a * b + c` etc. into temporaries and only then assign / accumulate into r, so
-   the result depends on the VALUES the arguments had at the call, whatever the pattern; the in-place operators are
-   handed a temporary, which is never *this.  The two-step rewriting `r = a*b; r += c` (seeded change C10-m6) is the
-   counter-example: it reads c after r has been written. *)
+(* C10 — the QField<Rational> wrappers under EVERY aliasing pattern of their arguments, statement by statement.
+   Model.exec_* run the bodies of qfield.h (and of the in-place operators they call) as sequences of member reads and
+   writes on a store of objects; every read goes to the store as it is at that point.  Proved here: for ALL indices
+   r, a, b, c (equal or not) the final store is the initial one with object r replaced by the value-level function of the
+   values held AT THE CALL - for all 17 wrappers (+ negin, invin).  This is a theorem about the statement sequences: it
+   fails for inv without its alias guard
+   (exec_inv_unguarded, the body before 4bcc635) and for the two-step axpy (seeded change C10-m6), both refuted below. *)
 From Coq Require Import ZArith QArith Lia Bool.
 From C10 Require Import Model ProofsBase ProofsProps.
 Local Open Scope Z_scope.
+
+Definition steq (s1 s2 : store) : Prop := forall j, s1 j = s2 j.
+Definition osteq (o1 o2 : option store) : Prop :=
+  match o1, o2 with Some x, Some y => steq x y | None, None => True | _, _ => False end.
+Definition omap (s : store) (r : Z) (o : option rat) : option store :=
+  match o with Some v => Some (upd s r v) | None => None end.
 
 Lemma upd_same : forall s i v, upd s i v i = v.
 Proof. intros. unfold upd. rewrite Z.eqb_refl. reflexivity. Qed.
 Lemma upd_other : forall s i v j, j <> i -> upd s i v j = s j.
 Proof. intros s i v j H. unfold upd. destruct (Z.eqb_spec j i); [contradiction | reflexivity]. Qed.
+Lemma upd_upd : forall s i v w, steq (upd (upd s i v) i w) (upd s i w).
+Proof. intros s i v w j. unfold upd. destruct (j =? i); reflexivity. Qed.
+
+Lemma setd_setn : forall s r n d, steq (setd (setn s r n) r d) (upd s r (n, d)).
+Proof.
+  intros s r n d j. unfold setd, setn, getn, getd, upd. rewrite Z.eqb_refl. cbn [num den fst snd].
+  destruct (j =? r); reflexivity.
+Qed.
+Lemma assign_tmp_eq : forall s r t, steq (assign_tmp s r t) (upd s r t).
+Proof. intros s r [n d]. unfold assign_tmp. cbn [num den fst snd]. apply setd_setn. Qed.
+
+Lemma negboth_eq : forall s1 x n d, s1 x = (n, d) ->
+  steq (setd (setn s1 x (- getn s1 x)) x (- getd (setn s1 x (- getn s1 x)) x)) (upd s1 x (- n, - d)).
+Proof.
+  intros s1 x n d E j. rewrite (setd_setn s1 x _ _ j). unfold getd at 1, setn. rewrite upd_same. cbn [den snd].
+  unfold getn, getd. rewrite E. reflexivity.
+Qed.
+Lemma upd_steq : forall s1 s2 x v, (forall j, j <> x -> s1 j = s2 j) -> steq (upd s1 x v) (upd s2 x v).
+Proof. intros s1 s2 x v H j. unfold upd. destruct (Z.eqb_spec j x); [reflexivity | apply H; assumption]. Qed.
+(* the two writes r.num := n; r.den := d followed by the optional negation of both members *)
+Lemma write_then_neg : forall s x n d (neg : bool),
+  steq (let s1 := setd (setn s x n) x d in
+        if neg then (let s2 := setn s1 x (- getn s1 x) in setd s2 x (- getd s2 x)) else s1)
+       (upd s x (if neg then (- n, - d) else (n, d))).
+Proof.
+  intros s x n d neg. cbv zeta. assert (S1 := setd_setn s x n d). destruct neg; [|exact S1].
+  intros j. rewrite (negboth_eq _ x n d); [|rewrite (S1 x); apply upd_same].
+  apply upd_steq. intros k Hk. rewrite (S1 k). apply upd_other; exact Hk.
+Qed.
+
+(* ------------------------------------------------------------------ the in-place bodies only look at rn / rd pointwise *)
+Ltac ext_tac Hn Hd := cbv zeta; repeat rewrite Hn; repeat rewrite Hd; reflexivity.
+Lemma addin_body_g_ext : forall rn rd rn' rd', (forall x, rn x = rn' x) -> (forall x, rd x = rd' x) ->
+  forall red x, addin_body_g rn rd red x = addin_body_g rn' rd' red x.
+Proof. intros rn rd rn' rd' Hn Hd red x. unfold addin_body_g. ext_tac Hn Hd. Qed.
+Lemma subin_body_g_ext : forall rn rd rn' rd', (forall x, rn x = rn' x) -> (forall x, rd x = rd' x) ->
+  forall red x, subin_body_g rn rd red x = subin_body_g rn' rd' red x.
+Proof. intros rn rd rn' rd' Hn Hd red x. unfold subin_body_g. ext_tac Hn Hd. Qed.
+Lemma mulin_g_ext : forall rn rd rn' rd', (forall x, rn x = rn' x) -> (forall x, rd x = rd' x) ->
+  forall red x, mulin_g rn rd red x = mulin_g rn' rd' red x.
+Proof. intros rn rd rn' rd' Hn Hd red x. unfold mulin_g, rarg_g. ext_tac Hn Hd. Qed.
+Lemma divin_g_ext : forall rn rd rn' rd', (forall x, rn x = rn' x) -> (forall x, rd x = rd' x) ->
+  forall red x, divin_g rn rd red x = divin_g rn' rd' red x.
+Proof. intros rn rd rn' rd' Hn Hd red x. unfold divin_g, rarg_g. ext_tac Hn Hd. Qed.
+
+(* the bodies the phase 1-3 theorems are about are instances *)
+Lemma addin_body_is_g : forall red t x, addin_body red t x = addin_body_g (fun _ => num t) (fun _ => den t) red x.
+Proof. reflexivity. Qed.
+Lemma subin_body_is_g : forall red t x, subin_body red t x = subin_body_g (fun _ => num t) (fun _ => den t) red x.
+Proof. reflexivity. Qed.
+Lemma mulin_is_g : forall alias t red x, mulin alias t red x = mulin_g (rn alias t) (rd alias t) red x.
+Proof. reflexivity. Qed.
+Lemma divin_is_g : forall alias t red x, divin alias t red x = divin_g (rn alias t) (rd alias t) red x.
+Proof. reflexivity. Qed.
+
+(* reading member of object a from the store in which r currently holds `cur` *)
+Lemma live_num : forall s r a cur, getn (upd s r cur) a = rn (a =? r) (s a) cur.
+Proof. intros. unfold getn, upd, rn. destruct (a =? r); reflexivity. Qed.
+Lemma live_den : forall s r a cur, getd (upd s r cur) a = rd (a =? r) (s a) cur.
+Proof. intros. unfold getd, upd, rd. destruct (a =? r); reflexivity. Qed.
+
+(* ------------------------------------------------------------------ statement level = call-time values, all patterns *)
+Definition Wrappers_statement_level_stmt := forall (red : bool) (s : store) (r a b c : Z),
+  steq (exec_add red s r a b) (upd s r (radd red (s a) (s b))) /\
+  steq (exec_sub red s r a b) (upd s r (rsub red (s a) (s b))) /\
+  steq (exec_mul red s r a b) (upd s r (rmul red (s a) (s b))) /\
+  osteq (exec_div red s r a b) (omap s r (rdiv red (s a) (s b))) /\
+  steq (exec_axpy red s r a b c) (upd s r (q_axpy red (s a) (s b) (s c))) /\
+  steq (exec_maxpy red s r a b c) (upd s r (q_maxpy red (s a) (s b) (s c))) /\
+  steq (exec_axmy red s r a b c) (upd s r (q_axmy red (s a) (s b) (s c))) /\
+  steq (exec_axpyin red s r a b) (upd s r (q_axpyin red (s r) (s a) (s b))) /\
+  steq (exec_maxpyin red s r a b) (upd s r (q_maxpyin red (s r) (s a) (s b))) /\
+  steq (exec_axmyin red s r a b) (upd s r (q_axmyin red (s r) (s a) (s b))) /\
+  (* r op= a: the value-level in-place model with "the argument is *this" exactly when the two indices coincide *)
+  steq (exec_addin red s r a) (upd s r (addin (a =? r) (s a) red (s r))) /\
+  steq (exec_subin red s r a) (upd s r (subin (a =? r) (s a) red (s r))) /\
+  steq (exec_mulin red s r a) (upd s r (mulin (a =? r) (s a) red (s r))) /\
+  osteq (exec_divin red s r a) (omap s r (divin (a =? r) (s a) red (s r))) /\
+  steq (exec_neg s r a) (upd s r (q_neg (s a))) /\
+  steq (exec_negin s r) (upd s r (q_negin (s r))) /\
+  osteq (exec_inv s r a) (omap s r (q_inv_g (r =? a) (s a))) /\
+  osteq (exec_invin s r) (omap s r (q_invin_g (s r))) /\
+  steq (exec_assign s r a) (upd s r (s a)).
+Lemma wrappers_statement_level_thm : Wrappers_statement_level_stmt.
+Proof.
+  intros red s r a b c.
+  split; [apply assign_tmp_eq|]. split; [apply assign_tmp_eq|]. split; [apply assign_tmp_eq|].
+  split. { unfold exec_div, omap, osteq. destruct (rdiv red (s a) (s b)); [apply assign_tmp_eq | exact I]. }
+  split; [apply assign_tmp_eq|]. split; [apply assign_tmp_eq|]. split; [apply assign_tmp_eq|].
+  split. { intros j. unfold exec_axpyin, inplace, q_axpyin, addin. cbv zeta. rewrite addin_body_is_g. reflexivity. }
+  split. { intros j. unfold exec_maxpyin, inplace, q_maxpyin, subin. cbv zeta. rewrite subin_body_is_g. reflexivity. }
+  split; [apply assign_tmp_eq|].
+  split.
+  { intros j. unfold exec_addin, addin. destruct (Z.eqb_spec a r) as [-> | N].
+    - unfold inplace. cbv zeta. rewrite addin_body_is_g. reflexivity.
+    - unfold inplace. rewrite addin_body_is_g. f_equal.
+      apply addin_body_g_ext; intros x; [rewrite live_num | rewrite live_den]; unfold rn, rd;
+        destruct (Z.eqb_spec a r); try contradiction; reflexivity. }
+  split.
+  { intros j. unfold exec_subin, subin. destruct (Z.eqb_spec a r) as [-> | N].
+    - unfold inplace. cbv zeta. rewrite subin_body_is_g. reflexivity.
+    - unfold inplace. rewrite subin_body_is_g. f_equal.
+      apply subin_body_g_ext; intros x; [rewrite live_num | rewrite live_den]; unfold rn, rd;
+        destruct (Z.eqb_spec a r); try contradiction; reflexivity. }
+  split.
+  { intros j. unfold exec_mulin, inplace. rewrite mulin_is_g. f_equal.
+    apply mulin_g_ext; intros x; [apply live_num | apply live_den]. }
+  split.
+  { unfold exec_divin, inplace_opt, omap, osteq. rewrite divin_is_g.
+    rewrite (divin_g_ext _ _ (rn (a =? r) (s a)) (rd (a =? r) (s a)) (fun x => live_num s r a x) (fun x => live_den s r a x)).
+    destruct (divin_g (rn (a =? r) (s a)) (rd (a =? r) (s a)) red (s r)); [intros j; reflexivity | exact I]. }
+  split.
+  { (* neg: r.den = a.den is read after r.num has been written; harmless because only num has changed *)
+    intros j. unfold exec_neg. cbv zeta.
+    assert (E : getd (setn s r (- getn s a)) a = getd s a).
+    { unfold getd, setn, upd, getn, getd. destruct (Z.eqb_spec a r) as [-> | N]; reflexivity. }
+    rewrite E. rewrite (setd_setn s r (- getn s a) (getd s a) j). reflexivity. }
+  split.
+  { intros j. unfold exec_negin, setn, q_negin, getn, getd. reflexivity. }
+  assert (INVIN : forall x, osteq (exec_invin s x) (omap s x (q_invin_g (s x)))).
+  { intros x. unfold exec_invin, q_invin_g, omap, osteq. cbv zeta.
+    change (getn s x) with (num (s x)). change (getd s x) with (den (s x)).
+    destruct (signI (num (s x)) =? 0); [exact I|].
+    intros j. assert (W := write_then_neg s x (den (s x)) (num (s x)) (signI (num (s x)) <? 0)). cbv zeta in W. rewrite (W j).
+    unfold q_invin. cbv zeta. cbn [num den fst snd]. destruct (signI (num (s x)) <? 0); reflexivity. }
+  split.
+  { unfold exec_inv, q_inv_g. destruct (Z.eqb_spec r a) as [<- | N]; [apply INVIN|].
+    cbv zeta. unfold omap, osteq.
+    (* r.den = a.num is read after r.num has been written: a is another object here (the guard) *)
+    assert (E : getn (setn s r (getd s a)) a = getn s a).
+    { unfold getn, setn, upd. destruct (Z.eqb_spec a r) as [-> | _]; [contradiction N; reflexivity | reflexivity]. }
+    rewrite E. change (getn s a) with (num (s a)). change (getd s a) with (den (s a)).
+    destruct (signI (num (s a)) =? 0); [exact I|].
+    intros j. assert (W := write_then_neg s r (den (s a)) (num (s a)) (signI (num (s a)) <? 0)). cbv zeta in W. rewrite (W j).
+    unfold q_inv. cbv zeta. cbn [num den fst snd]. destruct (signI (num (s a)) <? 0); reflexivity. }
+  split; [apply INVIN|].
+  intros j. unfold exec_assign, assign_obj. destruct (Z.eqb_spec r a) as [-> | N].
+  - unfold upd. destruct (Z.eqb_spec j a) as [-> | _]; reflexivity.
+  - cbv zeta.
+    assert (E : getd (setn s r (getn s a)) a = getd s a).
+    { unfold getd, setn, upd, getn. destruct (Z.eqb_spec a r) as [-> | _]; [contradiction N; reflexivity | reflexivity]. }
+    rewrite E. rewrite (setd_setn s r (getn s a) (getd s a) j). unfold getn, getd. destruct (s a); reflexivity.
+Qed.
+
+(* ------------------------------------------------------------------ corollary: canonical and exact, every pattern, every wrapper *)
+Definition good (s s' : store) (r : Z) (v : Q) : Prop :=
+  canon (s' r) /\ (toQ (s' r) == v)%Q /\ (forall j, j <> r -> s' j = s j).
+Definition ogood (s : store) (o : option store) (r : Z) (v : Q) : Prop :=
+  exists s', o = Some s' /\ good s s' r v.
+
+Lemma good_of_steq : forall s s' r x v, steq s' (upd s r x) -> canon x -> (toQ x == v)%Q -> good s s' r v.
+Proof.
+  intros s s' r x v E C V. unfold good. rewrite (E r), upd_same. split; [exact C|]. split; [exact V|].
+  intros j Hj. rewrite (E j). apply upd_other; exact Hj.
+Qed.
+Lemma ogood_of_osteq : forall s o r x v, osteq o (omap s r (Some x)) -> canon x -> (toQ x == v)%Q -> ogood s o r v.
+Proof.
+  intros s o r x v E C V. unfold osteq, omap in E. destruct o as [s'|]; [|contradiction]. exists s'. split; [reflexivity|].
+  eapply good_of_steq; eassumption.
+Qed.
 
 Definition Wrappers_any_alias_stmt := forall (s : store) (r a b c : Z), (forall i, canon (s i)) ->
   let va := toQ (s a) in let vb := toQ (s b) in let vc := toQ (s c) in let vr := toQ (s r) in
-  (* the object passed as r: canonical, exact in the values held at the call; every other object untouched *)
-  let good (s' : store) (v : Q) := canon (s' r) /\ (toQ (s' r) == v)%Q /\ (forall j, j <> r -> s' j = s j) in
-  good (exec_add true s r a b) (va + vb)%Q /\ good (exec_sub true s r a b) (va - vb)%Q /\
-  good (exec_mul true s r a b) (va * vb)%Q /\
-  good (exec_axpy true s r a b c) (va * vb + vc)%Q /\ good (exec_maxpy true s r a b c) (vc - va * vb)%Q /\
-  good (exec_axmy true s r a b c) (va * vb - vc)%Q /\
-  good (exec_axpyin true s r a b) (vr + va * vb)%Q /\ good (exec_maxpyin true s r a b) (vr - va * vb)%Q /\
-  good (exec_axmyin true s r a b) (va * vb - vr)%Q.
+  good s (exec_add true s r a b) r (va + vb)%Q /\ good s (exec_sub true s r a b) r (va - vb)%Q /\
+  good s (exec_mul true s r a b) r (va * vb)%Q /\
+  (num (s b) = 0 -> exec_div true s r a b = None) /\ (num (s b) <> 0 -> ogood s (exec_div true s r a b) r (va / vb)%Q) /\
+  good s (exec_axpy true s r a b c) r (va * vb + vc)%Q /\ good s (exec_maxpy true s r a b c) r (vc - va * vb)%Q /\
+  good s (exec_axmy true s r a b c) r (va * vb - vc)%Q /\
+  good s (exec_axpyin true s r a b) r (vr + va * vb)%Q /\ good s (exec_maxpyin true s r a b) r (vr - va * vb)%Q /\
+  good s (exec_axmyin true s r a b) r (va * vb - vr)%Q /\
+  good s (exec_addin true s r a) r (vr + va)%Q /\ good s (exec_subin true s r a) r (vr - va)%Q /\
+  good s (exec_mulin true s r a) r (vr * va)%Q /\
+  (num (s a) = 0 -> exec_divin true s r a = None) /\ (num (s a) <> 0 -> ogood s (exec_divin true s r a) r (vr / va)%Q) /\
+  good s (exec_neg s r a) r (- va)%Q /\ good s (exec_negin s r) r (- vr)%Q /\
+  (num (s a) = 0 -> exec_inv s r a = None) /\ (num (s a) <> 0 -> ogood s (exec_inv s r a) r (/ va)%Q) /\
+  (num (s r) = 0 -> exec_invin s r = None) /\ (num (s r) <> 0 -> ogood s (exec_invin s r) r (/ vr)%Q) /\
+  good s (exec_assign s r a) r va.
+Lemma sgn_eqb0 : forall n, (signI n =? 0) = (n =? 0).
+Proof. intros n. unfold signI. destruct n; reflexivity. Qed.
 Lemma wrappers_any_alias_thm : Wrappers_any_alias_stmt.
 Proof.
   intros s r a b c Cs. cbv zeta.
+  destruct (wrappers_statement_level_thm true s r a b c)
+    as (E1 & E2 & E3 & E4 & E5 & E6 & E7 & E8 & E9 & E10 & E11 & E12 & E13 & E14 & E15 & E16 & E17 & E18 & E19).
   destruct (qfield_axpy_thm (s a) (s b) (s c) (Cs a) (Cs b) (Cs c)) as ((C1 & V1) & _ & (C3 & V3) & (C4 & V4) & _).
   destruct (qfield_axpy_thm (s a) (s b) (s r) (Cs a) (Cs b) (Cs r)) as (_ & (C2 & V2) & _ & _ & (C5 & V5) & (C6 & V6)).
   destruct (add_thm (s a) (s b) (Cs a) (Cs b)) as [C7 V7]. destruct (sub_thm (s a) (s b) (Cs a) (Cs b)) as [C8 V8].
   destruct (mul_thm (s a) (s b) (Cs a) (Cs b)) as [C9 V9].
-  unfold exec_add, exec_sub, exec_mul, exec_axpy, exec_maxpy, exec_axmy, exec_axpyin, exec_maxpyin, exec_axmyin.
-  rewrite !upd_same.
-  repeat match goal with |- _ /\ _ => split end; try assumption; intros j Hj; apply upd_other; exact Hj.
+  destruct (div_thm (s a) (s b) (Cs a) (Cs b)) as [DZ DN].
+  assert (AL : (a =? r) = true -> s a = s r) by (intros H; apply Z.eqb_eq in H; subst; reflexivity).
+  destruct (addin_subin_thm (a =? r) (s a) (s r) (Cs r) (Cs a) AL) as (CA & VA & CS & VS).
+  destruct (mulin_thm (a =? r) (s a) (s r) (Cs r) (Cs a) AL) as (CM & VM).
+  destruct (divin_thm (a =? r) (s a) (s r) (Cs r) (Cs a) AL) as [IZ IN].
+  destruct (neg_abs_thm (s a) (Cs a)) as (CN & VN & _). destruct (neg_abs_thm (s r) (Cs r)) as (CNr & VNr & _).
+  split; [eapply good_of_steq; eassumption|]. split; [eapply good_of_steq; eassumption|].
+  split; [eapply good_of_steq; eassumption|].
+  split. { intros Z. unfold exec_div. rewrite (DZ Z). reflexivity. }
+  split. { intros NZ. destruct (DN NZ) as (x & Ex & Cx & Vx). rewrite Ex in E4. eapply ogood_of_osteq; eassumption. }
+  split; [eapply good_of_steq; eassumption|]. split; [eapply good_of_steq; eassumption|].
+  split; [eapply good_of_steq; eassumption|]. split; [eapply good_of_steq; eassumption|].
+  split; [eapply good_of_steq; eassumption|]. split; [eapply good_of_steq; eassumption|].
+  split; [eapply good_of_steq; eassumption|]. split; [eapply good_of_steq; eassumption|].
+  split; [eapply good_of_steq; eassumption|].
+  split. { intros Z. rewrite (IZ Z) in E14. unfold omap, osteq in E14. destruct (exec_divin true s r a); [contradiction | reflexivity]. }
+  split. { intros NZ. destruct (IN NZ) as (x & Ex & Cx & Vx). rewrite Ex in E14. eapply ogood_of_osteq; eassumption. }
+  assert (QN : q_neg (s a) = rneg (s a) \/ True) by (right; exact I). clear QN.
+  assert (NEG : forall x, canon x -> canon (q_neg x) /\ (toQ (q_neg x) == - toQ x)%Q).
+  { intros [n d] [H G]. cbn [num den fst snd] in *. unfold q_neg. cbn [num den fst snd]. split.
+    - split; cbn [num den fst snd]; [exact H | rewrite Z.gcd_opp_l; exact G].
+    - unfold toQ, Qeq, Qopp. cbn [num den fst snd Qnum Qden]. reflexivity. }
+  split. { destruct (NEG (s a) (Cs a)). eapply good_of_steq; eassumption. }
+  split. { destruct (NEG (s r) (Cs r)). eapply good_of_steq; [exact E16 | assumption | assumption]. }
+  assert (INV : forall al x, canon x ->
+            (num x = 0 -> q_inv_g al x = None) /\
+            (num x <> 0 -> exists y, q_inv_g al x = Some y /\ canon y /\ (toQ y == / toQ x)%Q)).
+  { intros al x Cx. split.
+    - intros Z. unfold q_inv_g, q_invin_g. rewrite !sgn_eqb0, Z. destruct al; reflexivity.
+    - intros NZ. destruct (qfield_unary_thm al x Cx) as (_ & _ & _ & U). destruct (U NZ) as (Ci & Vi & Ei).
+      exists (q_inv al x). split; [|split; assumption].
+      unfold q_inv_g, q_invin_g. rewrite !sgn_eqb0. destruct (Z.eqb_spec (num x) 0); [contradiction|].
+      destruct al; [rewrite Ei|]; reflexivity. }
+  split. { intros Z. rewrite (proj1 (INV (r =? a) (s a) (Cs a)) Z) in E17. unfold omap, osteq in E17. destruct (exec_inv s r a); [contradiction | reflexivity]. }
+  split. { intros NZ. destruct (proj2 (INV (r =? a) (s a) (Cs a)) NZ) as (y & Ey & Cy & Vy). rewrite Ey in E17. eapply ogood_of_osteq; eassumption. }
+  assert (INVIN : q_invin_g (s r) = q_inv_g true (s r)) by reflexivity.
+  split. { intros Z. rewrite INVIN, (proj1 (INV true (s r) (Cs r)) Z) in E18. unfold omap, osteq in E18. destruct (exec_invin s r); [contradiction | reflexivity]. }
+  split. { intros NZ. destruct (proj2 (INV true (s r) (Cs r)) NZ) as (y & Ey & Cy & Vy). rewrite INVIN, Ey in E18. eapply ogood_of_osteq; eassumption. }
+  eapply good_of_steq; [exact E19 | apply Cs | reflexivity].
 Qed.
 
-(* the two-step rewriting is wrong exactly in the accumulation pattern r = c: it yields 2*a*b *)
+(* ------------------------------------------------------------------ statement sequences for which it FAILS *)
+(* the two-step rewriting of axpy (seeded change C10-m6) is wrong exactly in the accumulation pattern r = c *)
 Definition Two_step_axpy_refuted_stmt :=
   exists (s : store) (r a b c : Z), (forall i, canon (s i)) /\ r = c /\
     ~ (toQ (exec_axpy_two_step true s r a b c r) == toQ (s a) * toQ (s b) + toQ (s c))%Q /\
@@ -46,4 +260,14 @@ Proof.
   split.
   { intros i. destruct (i =? 0); [split; [cbn; lia | reflexivity]|]. destruct (i =? 1); split; cbn; try lia; reflexivity. }
   split; [reflexivity|]. split; [vm_compute; discriminate | vm_compute; reflexivity].
+Qed.
+(* history: inv without `if (&r == &a) return invin(r)` (the body before 4bcc635) reads a.num after r.num was written *)
+Definition Inv_unguarded_refuted_stmt :=
+  exists (s : store) (r : Z), (forall i, canon (s i)) /\ num (s r) <> 0 /\
+    ~ (toQ (exec_inv_unguarded s r r r) == / toQ (s r))%Q /\
+    (exists s', exec_inv s r r = Some s' /\ (toQ (s' r) == / toQ (s r))%Q).
+Lemma inv_unguarded_refuted_thm : Inv_unguarded_refuted_stmt.
+Proof.
+  exists (fun _ => (2, 3)), 0. split; [intros; split; [cbn; lia | reflexivity]|]. split; [cbn; lia|].
+  split; [vm_compute; discriminate|]. eexists. split; [reflexivity | vm_compute; reflexivity].
 Qed.
